@@ -74,25 +74,26 @@ const (
 type G struct {
 	T *rapid.T
 
-	depth      int
-	MaxDepth   int
-	inFunc     int
-	inGen      bool
-	inAsync    bool
-	inLoop     int
-	inSwitch   int
-	noIn       bool
-	labels     []string
-	forcePlain bool       // the next function is neither async nor a generator
-	wantLex    bool       // the next statement is the first of a loop or conditional body block
-	fnScopes   []*fnScope // the function-level scopes that are open (bodies of functions, methods, static blocks; the top level of a script)
-	lastFunc   string     // the name the last function declaration or expression got
-	forceGen   bool       // the next method is a plain generator method (no static, async, get, set)
-	nameSeq    int
-	Declared   []string // names declared so far (unique, so that no redeclaration error can arise)
-	Module     bool     // import/export declarations allowed at top level
-	TopReturn  bool     // return allowed at top level (Options.Inline)
-	WhileToFor bool     // Options.WhileToFor: while loops are reported as the equivalent for loops
+	depth       int
+	MaxDepth    int
+	inFunc      int
+	inGen       bool
+	inAsync     bool
+	inLoop      int
+	inSwitch    int
+	noIn        bool
+	labels      []string
+	forcePlain  bool       // the next function is neither async nor a generator
+	afterStatic bool       // a class with a static block has just been generated
+	wantLex     bool       // the next statement is the first of a loop or conditional body block
+	fnScopes    []*fnScope // the function-level scopes that are open (bodies of functions, methods, static blocks; the top level of a script)
+	lastFunc    string     // the name the last function declaration or expression got
+	forceGen    bool       // the next method is a plain generator method (no static, async, get, set)
+	nameSeq     int
+	Declared    []string // names declared so far (unique, so that no redeclaration error can arise)
+	Module      bool     // import/export declarations allowed at top level
+	TopReturn   bool     // return allowed at top level (Options.Inline)
+	WhileToFor  bool     // Options.WhileToFor: while loops are reported as the equivalent for loops
 
 	// coverage counters
 	Ops           map[string]int
@@ -1023,6 +1024,7 @@ func (g *G) class(expr bool) Out {
 			toks = append(toks, cat(tk("static"), b.Toks)...)
 			s += " Static(" + b.Str + ")"
 			g.Kinds["static-block"]++
+			g.afterStatic = true
 		default:
 			g.Kinds["field"]++
 			f := "Field("
@@ -1161,6 +1163,20 @@ func forBody(o Out) string {
 func (g *G) Stmt() Out {
 	g.depth++
 	defer func() { g.depth-- }()
+	if g.afterStatic {
+		// behind a class with a static block (which has an await and yield context of its own) the context of the
+		// function goes on: an await or yield expression statement half of the time
+		g.afterStatic = false
+		if (g.inAsync || g.inGen) && g.chance("afterstatic", 2) {
+			op := "yield"
+			if g.inAsync && (!g.inGen || g.chance("awaitnotyield", 2)) {
+				op = "await"
+			}
+			g.Kinds["await-or-yield-behind-static-block"]++
+			r := g.ref()
+			return Out{cat(tk(op), []Tok{{S: r, NoLT: op == "yield"}}, semi()), "Stmt(" + op + " " + r + ")"}
+		}
+	}
 	if g.depth <= g.MaxDepth {
 		kind := g.intn("declkind", 12)
 		if g.wantLex {
